@@ -397,6 +397,11 @@ def child_main(wfd: int, rfd: int, scenario: dict, event, clock, inv_no: int, du
         from dw import contracts
 
         RT.post("contracts_attached", report=contracts.install(RT))
+    lockorder = None
+    if opts.get("lockorder"):
+        from dw import lockorder
+
+        RT.post("lockorder_attached", report=lockorder.install(RT.post))
     from dw.interp import build_handler, warm_handler
 
     handler = None
@@ -431,6 +436,8 @@ def child_main(wfd: int, rfd: int, scenario: dict, event, clock, inv_no: int, du
         _time.sleep(0)  # let finished workers settle
         alive = [t.name for t in threading.enumerate() if t.is_alive() and t.name.startswith("dex-handler")]
         allthreads = [t.name for t in threading.enumerate() if t.is_alive() and t is not threading.current_thread()]
+        if lockorder:
+            RT.post("lockorder", **lockorder.report())
         resp = RT.rpc("inv_end", outcome=outcome, dex_alive=alive, threads=allthreads, perturb_hits=pert.hits if pert else 0,
                       contract_evals=dict(contracts.COUNTS) if contracts else None)
         if isinstance(resp, dict) and "next" in resp:
